@@ -45,6 +45,9 @@ struct P {
     during_snapshot: Option<Op>,
     /// later operations, quiescence (and a comparison) after each
     ops: Vec<Op>,
+    /// per later operation: a second operation that runs concurrently with it
+    #[serde(default)]
+    with: Vec<Option<Op>>,
     link: LinkCfg,
 }
 
@@ -104,6 +107,10 @@ async fn snapshot(conn: &Connection, mpath: &str) -> Result<View, String> {
 fn apply(view: &mut View, s: &Signal, mpath: &str) {
     match s {
         Signal::Added(from, path, ifaces) if from == mpath => {
+            // (paths that carry no interfaces are ignored, as the statement says)
+            if ifaces.is_empty() {
+                return;
+            }
             let e = view.entry(path.clone()).or_default();
             for (i, props) in ifaces {
                 e.insert(i.clone(), props.clone());
@@ -128,7 +135,7 @@ impl Scenario for C25Scn {
         "C25"
     }
     fn rule(&self) -> &'static str {
-        "a real client subscribes to ObjectManager signals, calls GetManagedObjects on the manager it follows (at / or /a) while, optionally, a registration or removal runs concurrently on the server, and from then on applies every InterfacesAdded / InterfacesRemoved it received since sending that call, in order and idempotently; the server runs a history of 0..6 further at / remove operations over 6 paths (nested, and the managers' own paths) x 3 interface types, including adding and removing ObjectManager itself and a second, sibling manager; after every operation (quiescence) the client's view must equal a fresh GetManagedObjects of that manager, including each interface's properties, ignoring paths without interfaces; when the followed manager disappears the client starts over from a fresh listing once it is back; non-trivial = a registration happened between the client's call and its reply, or the history touched a manager"
+        "a real client subscribes to ObjectManager signals, calls GetManagedObjects on the manager it follows (at / or /a) while, optionally, a registration or removal runs concurrently on the server, and from then on applies every InterfacesAdded / InterfacesRemoved it received since sending that call, in order and idempotently; the server runs a history of 0..6 further at / remove operations, a third of them concurrently with a second operation (often the inverse one on the same path and interface; one interface has an async property getter that really yields), over 6 paths (nested, and the managers' own paths) x 3 interface types, including adding and removing ObjectManager itself and a second, sibling manager; after every operation (quiescence) the client's view must equal a fresh GetManagedObjects of that manager, including each interface's properties, ignoring paths without interfaces; when the followed manager disappears the client starts over from a fresh listing once it is back; non-trivial = a registration happened between the client's call and its reply, or the history touched a manager"
     }
     fn runs(&self, tier: Tier) -> u64 {
         match tier {
@@ -160,18 +167,42 @@ impl Scenario for C25Scn {
             initial.push(Op::At(rng.below(6) as u8, rng.below(3) as u8));
         }
         let during_snapshot = if rng.chance(1, 2) { Some(gen(rng)) } else { None };
-        let ops = (0..rng.below(7)).map(|_| gen(rng)).collect();
+        let ops: Vec<Op> = (0..rng.below(7)).map(|_| gen(rng)).collect();
+        // concurrent partner: often the inverse operation on the same path and interface
+        let with = ops
+            .iter()
+            .map(|op| {
+                if !rng.chance(1, 3) {
+                    return None;
+                }
+                Some(match (*op, rng.chance(2, 3)) {
+                    (Op::At(p, i), true) => Op::Remove(p, i),
+                    (Op::Remove(p, i), true) => Op::At(p, i),
+                    _ => gen(rng),
+                })
+            })
+            .collect();
         let sched = SchedCfg::generate(rng, &["signals", "socket reader", "obj_server_task"]);
-        (sched, j(&P { follow, initial, during_snapshot, ops, link: gen_read_cfg(rng) }))
+        (sched, j(&P { follow, initial, during_snapshot, ops, with, link: gen_read_cfg(rng) }))
     }
 
     fn shrink(&self, body: &Value) -> Vec<Value> {
         let p: P = unj(body);
         let mut out = vec![];
-        for v in drop_candidates(&p.ops) {
+        for i in (0..p.ops.len()).rev() {
             let mut q = p.clone();
-            q.ops = v;
+            q.ops.remove(i);
+            if i < q.with.len() {
+                q.with.remove(i);
+            }
             out.push(j(&q));
+        }
+        for i in 0..p.with.len() {
+            if p.with[i].is_some() {
+                let mut q = p.clone();
+                q.with[i] = None;
+                out.push(j(&q));
+            }
         }
         for v in drop_candidates(&p.initial[1..]) {
             let mut q = p.clone();
@@ -250,17 +281,26 @@ impl Scenario for C25Scn {
             return Verdict::harness("client could not subscribe");
         }
 
-        // run one server operation to quiescence
-        let run_op = |op: Op, token: u32| -> Result<String, String> {
+        // run one server operation (and optionally a second one concurrently) to quiescence
+        let run_ops = |op: Op, partner: Option<Op>, token: u32| -> (Result<String, String>, Option<Result<String, String>>) {
             let res = shared(None);
             let (r, s) = (res.clone(), server.clone());
             let t = w.spawn("server-op", async move {
                 *r.lock().unwrap() = Some(do_op(&s, op, token).await);
             });
+            let res2 = shared(None);
+            let t2 = partner.map(|op2| {
+                let (r, s) = (res2.clone(), server.clone());
+                w.spawn("server-op-2", async move {
+                    *r.lock().unwrap() = Some(do_op(&s, op2, token + 500).await);
+                })
+            });
             w.run();
             drop(t);
+            drop(t2);
             let x = res.lock().unwrap().take();
-            x.unwrap_or_else(|| Err("operation never returned".into()))
+            let y = res2.lock().unwrap().take();
+            (x.unwrap_or_else(|| Err("operation never returned".into())), partner.map(|_| y.unwrap_or_else(|| Err("operation never returned".into()))))
         };
         let take_snapshot = |concurrent: Option<Op>| -> (Option<Result<View, String>>, Option<Result<String, String>>) {
             let snap = shared(None);
@@ -283,29 +323,99 @@ impl Scenario for C25Scn {
             (a, b)
         };
 
-        // model of which managers exist (to know when comparisons are meaningful)
-        let mut managers = [false, false, false];
-        let mut registered: BTreeMap<(u8, u8), ()> = BTreeMap::new();
-        let mut track = |op: Op, res: &Result<String, String>, managers: &mut [bool; 3]| {
-            if let Ok(r) = res {
-                match op {
-                    Op::AddManager(m) if r == "true" => managers[m as usize] = true,
-                    Op::RemoveManager(m) if r != "not-found" => managers[m as usize] = false,
-                    Op::At(p, i) if r == "true" => {
-                        registered.insert((p, i), ());
+        // model of which managers / interfaces exist (to know when comparisons are meaningful)
+        #[derive(Clone, PartialEq)]
+        struct St {
+            managers: [bool; 3],
+            registered: BTreeMap<(u8, u8), ()>,
+        }
+        // expected result class of `op` in `st` (at: "true"/"false"; remove: "ok"/"not-found") and the new state
+        fn predict(op: Op, st: &St) -> (&'static str, St) {
+            let mut n = st.clone();
+            let r = match op {
+                Op::At(p, i) => {
+                    if n.registered.insert((p, i), ()).is_some() {
+                        "false"
+                    } else {
+                        "true"
                     }
-                    Op::Remove(p, i) if r != "not-found" => {
-                        registered.remove(&(p, i));
+                }
+                Op::Remove(p, i) => {
+                    if n.registered.remove(&(p, i)).is_some() {
+                        "ok"
+                    } else {
+                        "not-found"
                     }
-                    _ => {}
+                }
+                Op::AddManager(m) => {
+                    if n.managers[m as usize] {
+                        "false"
+                    } else {
+                        n.managers[m as usize] = true;
+                        "true"
+                    }
+                }
+                Op::RemoveManager(m) => {
+                    if n.managers[m as usize] {
+                        n.managers[m as usize] = false;
+                        "ok"
+                    } else {
+                        "not-found"
+                    }
+                }
+            };
+            (r, n)
+        }
+        fn class(op: Op, r: &str) -> &'static str {
+            match op {
+                Op::At(..) | Op::AddManager(_) => {
+                    if r == "true" {
+                        "true"
+                    } else {
+                        "false"
+                    }
+                }
+                _ => {
+                    if r == "not-found" {
+                        "not-found"
+                    } else {
+                        "ok"
+                    }
                 }
             }
-        };
+        }
+        // apply one or two (concurrent) operations: pick the order that explains the observed results
+        fn advance(st: &St, a: (Op, &str), b: Option<(Op, &str)>) -> Option<St> {
+            let seq = |first: (Op, &str), second: Option<(Op, &str)>| -> Option<St> {
+                let (r1, s1) = predict(first.0, st);
+                if r1 != class(first.0, first.1) {
+                    return None;
+                }
+                match second {
+                    None => Some(s1),
+                    Some(x) => {
+                        let (r2, s2) = predict(x.0, &s1);
+                        if r2 == class(x.0, x.1) {
+                            Some(s2)
+                        } else {
+                            None
+                        }
+                    }
+                }
+            };
+            match b {
+                None => seq(a, None),
+                Some(b) => seq(a, Some(b)).or_else(|| seq(b, Some(a))),
+            }
+        }
+        let mut st = St { managers: [false, false, false], registered: BTreeMap::new() };
         for op in &p.initial {
-            track(*op, &Ok("true".into()), &mut managers);
+            // (initial registrations may repeat a pair: the second one is refused)
+            st = predict(*op, &st).1;
         }
 
         let mut touched_manager = false;
+        let mut concurrent = false;
         let mut verdict = None;
         // ---- initial snapshot (possibly racing an operation) ----
         let i0 = sigs.lock().unwrap().len();
@@ -314,7 +424,12 @@ impl Scenario for C25Scn {
             if let Err(e) = r {
                 verdict = Some(Verdict::fail("op", "operation-failed", format!("{op:?} during the snapshot: {e}")));
             }
-            track(op, r, &mut managers);
+            if let Ok(rs) = r {
+                match advance(&st, (op, rs.as_str()), None) {
+                    Some(n) => st = n,
+                    None => verdict = Some(Verdict::fail("op", "result-inconsistent", format!("{op:?} during the snapshot returned {rs} which the registration model cannot explain"))),
+                }
+            }
             if matches!(op, Op::AddManager(_) | Op::RemoveManager(_)) {
                 touched_manager = true;
             }
@@ -359,7 +474,7 @@ impl Scenario for C25Scn {
             }
         };
 
-        if verdict.is_none() && managers[p.follow as usize] {
+        if verdict.is_none() && st.managers[p.follow as usize] {
             if let Some(v) = &view {
                 verdict = compare(v, "after the initial snapshot");
             }
@@ -367,17 +482,39 @@ impl Scenario for C25Scn {
         // ---- later operations ----
         if verdict.is_none() {
             for (k, op) in p.ops.iter().enumerate() {
-                let had = managers[p.follow as usize];
-                let r = run_op(*op, 2000 + k as u32);
+                let had = st.managers[p.follow as usize];
+                let partner = p.with.get(k).copied().flatten();
+                let (r, r2) = run_ops(*op, partner, 2000 + k as u32);
                 if let Err(e) = &r {
                     verdict = Some(Verdict::fail("op", "operation-failed", format!("op {k} {op:?}: {e}")));
                     break;
                 }
-                track(*op, &r, &mut managers);
+                if let (Some(op2), Some(Err(e))) = (partner, &r2) {
+                    verdict = Some(Verdict::fail("op", "operation-failed", format!("op {k} partner {op2:?}: {e}")));
+                    break;
+                }
+                let a = (*op, r.as_ref().unwrap().as_str());
+                let b = match (partner, &r2) {
+                    (Some(op2), Some(Ok(rs))) => Some((op2, rs.as_str())),
+                    _ => None,
+                };
+                match advance(&st, a, b) {
+                    Some(n) => st = n,
+                    None => {
+                        verdict = Some(Verdict::fail("op", "result-inconsistent", format!("op {k} {op:?} -> {r:?} with concurrent {partner:?} -> {r2:?}: no order of the two explains these results")));
+                        break;
+                    }
+                }
+                if let Some(op2) = partner {
+                    concurrent = true;
+                    if matches!(op2, Op::AddManager(_) | Op::RemoveManager(_)) {
+                        touched_manager = true;
+                    }
+                }
                 if matches!(op, Op::AddManager(_) | Op::RemoveManager(_)) {
                     touched_manager = true;
                 }
-                let has = managers[p.follow as usize];
+                let has = st.managers[p.follow as usize];
                 let new_sigs: Vec<Signal> = sigs.lock().unwrap()[applied..].to_vec();
                 applied += new_sigs.len();
                 if !has {
@@ -417,6 +554,9 @@ impl Scenario for C25Scn {
         if touched_manager {
             w.count("probe.manager_added_or_removed");
         }
-        verdict.unwrap_or_else(|| Verdict::ok(raced || touched_manager))
+        if concurrent {
+            w.count("probe.two_server_operations_ran_concurrently");
+        }
+        verdict.unwrap_or_else(|| Verdict::ok(raced || touched_manager || concurrent))
     }
 }
